@@ -39,6 +39,13 @@ where
         }
     }
 
+    /// Exposes the private cursors to external runtime monitors (feature `verif`, off by
+    /// default): (start, end, len, capacity, container length).
+    #[cfg(feature = "verif")]
+    pub fn verif_cursors(&self) -> (usize, usize, usize, usize, usize) {
+        (self.start, self.end, self.len, self.capacity, self.container.len())
+    }
+
     pub fn capacity(&self) -> usize {
         self.capacity
     }
